@@ -215,7 +215,8 @@ fn random_placement(rng: &mut Rng) -> Option<Pos> {
         }
     }
     p.clock = rng.below(40) as u16;
-    p.number = 1 + rng.below(80) as u16;
+    // FEN allows a move number of 0
+    p.number = rng.below(80) as u16;
     Some(p)
 }
 
